@@ -238,7 +238,8 @@ func c18R2(h H) {
 			}
 		}
 		bad := ""
-		for _, compress := range []bool{true, false} {
+		for _, caseNo := range []int{0, 1, 2, 3} {
+			compress, nbytes := caseNo%2 == 0, 1+2*(caseNo/2)
 			raw := &aobj{name: "wrapped writer", typ: types.Typ[types.Int], f: map[string]aval{}}
 			wrap := &aobj{name: "wrapper", typ: wrapT, f: map[string]aval{"ResponseWriter": aiface{aptr{raw, ""}, types.Typ[types.Int]}}}
 			gz := &aobj{name: "gzip writer", typ: gzT, f: map[string]aval{"ResponseWriterWrapper": aptr{wrap, ""}, "statusCodeWritten": abool(true)}}
@@ -277,9 +278,13 @@ func c18R2(h H) {
 				}
 				return nil, false
 			}
-			buf := newVals([]aval{aint(1), aint(2), aint(3)}, types.Typ[types.Uint8])
+			var bs []aval
+			for k := 0; k < nbytes; k++ {
+				bs = append(bs, aint(int64(k+1)))
+			}
+			buf := newVals(bs, types.Typ[types.Uint8])
 			if _, und := env.run(fn, []aval{aptr{rf, ""}, buf}); und != "" {
-				bad = sprintf("decision compress=%v: undecided — %s", compress, und)
+				bad = sprintf("decision compress=%v, %d bytes: undecided — %s", compress, nbytes, und)
 				break
 			}
 			want := "raw"
@@ -287,7 +292,7 @@ func c18R2(h H) {
 				want = "gzip"
 			}
 			if len(went) != 1 || went[0] != want {
-				bad = sprintf("decision compress=%v: the body bytes go to %v, specification says once to the %s writer", compress, went, want)
+				bad = sprintf("decision compress=%v, %d bytes: the body bytes go to %v, specification says once to the %s writer", compress, nbytes, went, want)
 				break
 			}
 		}
